@@ -22,7 +22,7 @@ WIDE = ("datasetRule", "dataTableRule", "otherEntityRule", "physicalRule", "attr
 
 
 def bounds(tier):
-    return {"L": 5, "wide_L": 4} if tier == "quick" else {"L": 8, "wide_L": 6}
+    return {"L": 5, "wide_L": 4} if tier == "quick" else {"L": 10, "wide_L": 7}
 
 
 def _native(rule_name, seq, new):
